@@ -22,6 +22,14 @@ operator or assignment token it has no constructor for). -/
 theorem bodies_fully_recognised :
     hs.clean = true ∧ pm.clean = true ∧ rz.clean = true ∧ unknownCount = 0 := by decide
 
+/-- The constants the interpreter (and the hand model) use for `EventType` and the modifier masks
+are those of key.go's iota blocks, read from the source on every run. -/
+theorem interpreter_constants_from_source :
+    Gen.InputBody.eventTypes.lookup "EventPress" = some evPress ∧ Gen.InputBody.eventTypes.lookup "EventRelease" = some evRelease ∧
+    Gen.InputBody.eventTypes.lookup "EventMotion" = some evMotion ∧ Gen.InputBody.eventTypes.lookup "EventPaste" = some evPaste ∧
+    Gen.InputBody.modifierMasks.lookup "ModShift" = some modShift ∧ Gen.InputBody.modifierMasks.lookup "ModAlt" = some modAlt ∧
+    Gen.InputBody.modifierMasks.lookup "ModCtrl" = some modCtrl := by decide
+
 /-- `parseMouseEvent` run on its regenerated body = the hand model `parseMouse`, for all
 intermediates, parameter lists and finals: the same `Mouse` and `ok`, a panic exactly where the
 model has one. -/
